@@ -25,7 +25,9 @@ fn emit_for(t: &mut TraceOut, a: &[f64], n: usize, cls: &str, spd: bool) {
             let d2 = guard(|| lum.lu_det(pm));
             for (name, d) in [("Matrix::det", d1), ("Matrix::lu_det", d2)] {
                 match d {
-                    Some(d) => t.emit(json!({"kind": "det", "cls": cls, "call": name, "n": n, "a": aj, "out": "ok", "det": projr(d, 4096)})),
+                    // residual relative to Hadamard's bound (a singular matrix has determinant exactly 0, computed as ~1e-16)
+                    Some(d) => { let had: f64 = (0..n).map(|i| a[i * n..(i + 1) * n].iter().map(|v| v * v).sum::<f64>().sqrt()).product();
+                                 t.emit(json!({"kind": "det", "cls": cls, "call": name, "n": n, "a": aj, "out": "ok", "det": projr_scaled_by(d, 4096, had)})) }
                     None => t.emit(json!({"kind": "det", "cls": cls, "call": name, "n": n, "a": aj, "out": "panic", "det": projr(0.0, 1)})),
                 }
             }
@@ -47,8 +49,11 @@ fn emit_for(t: &mut TraceOut, a: &[f64], n: usize, cls: &str, spd: bool) {
             }
         } else {
             // not positive definite: must be rejected, never a (non-finite) factor
-            t.emit(json!({"kind": "reject", "cls": cls, "call": "cholesky (slice)", "n": n, "a": aj, "out": if cs.is_none() { "panic" } else { "ok" }}));
-            t.emit(json!({"kind": "reject", "cls": cls, "call": "Matrix::cholesky", "n": n, "a": aj, "out": if cm.is_none() { "panic" } else { "ok" }}));
+            let fac = |l: &Option<Vec<f64>>| match l { Some(l) => (projrs_scaled(l, 4096), projrs_scaled(&matmul(l, l, n, n, false, true), 64)), None => (json!([]), json!([])) };
+            let (l1, llt1) = fac(&cs);
+            let (l2, llt2) = fac(&cm.as_ref().map(|m| m.data.to_vec()));
+            t.emit(json!({"kind": "reject", "cls": cls, "call": "cholesky (slice)", "n": n, "a": aj, "out": if cs.is_none() { "panic" } else { "ok" }, "l": l1, "llt": llt1}));
+            t.emit(json!({"kind": "reject", "cls": cls, "call": "Matrix::cholesky", "n": n, "a": aj, "out": if cm.is_none() { "panic" } else { "ok" }, "l": l2, "llt": llt2}));
         }
     }
 }
@@ -108,7 +113,17 @@ pub fn record(cases: &str, seed: u64, nrand: usize, out: &str) {
         let n = rng.range(1, 4) as usize;
         tri_events(&mut t, &mut rng, n);
         // random small integer matrices (entries +-3); SPD as L0 L0^T with |L0| <= 2
-        if k % 2 == 0 {
+        if k % 5 == 4 && n >= 2 {
+            // symmetric with positive diagonal; sometimes two equal rows/columns (singular, possibly indefinite)
+            let mut a = vec![0.0; n * n];
+            for i in 0..n { for j in i..n { let v = if i == j { rng.range(1, 3) as f64 } else { rng.range(-2, 2) as f64 }; a[i * n + j] = v; a[j * n + i] = v; } }
+            if rng.below(2) == 0 {
+                // make rows (and columns) 0 and 1 equal, keeping symmetry
+                for j in 2..n { a[n + j] = a[j]; a[j * n + 1] = a[j * n]; }
+                a[1] = a[0]; a[n] = a[0]; a[n + 1] = a[0];
+            }
+            emit_for(&mut t, &a, n, "random-symmetric", false);
+        } else if k % 2 == 0 {
             let a: Vec<f64> = (0..n * n).map(|_| rng.range(-3, 3) as f64).collect();
             let sym = is_sym(&a, n);
             if !sym { emit_for(&mut t, &a, n, "random", false); }
